@@ -25,7 +25,11 @@ def pyodbc_classifier(exc: BaseException) -> ErrorClass:
     Map pyodbc exceptions to coarse error classes.
     """
     sqlstate = getattr(exc, "sqlstate", None) or _extract_sqlstate(getattr(exc, "args", ()))
-    code = str(sqlstate) if sqlstate is not None else None
+    try:
+        code = str(sqlstate) if sqlstate is not None else None
+    except ValueError:
+        # e.g. an int beyond sys.get_int_max_str_digits(): not a SQLSTATE
+        code = None
 
     if code is not None:
         # Concurrency/serialization conflicts
